@@ -76,6 +76,11 @@ def c08TDX (mins maxs : List Rat) (tmin tmax : Rat) (cnt : Nat) (tdx : List (Lis
     some "border-batch-time-outside-interval"
   else c08BorderRows "border-batch" mins maxs cnt (tdx.map List.tail)
 
+/-- A non-finite coordinate (NaN, ±∞) in a store or in a batch is not a point of any closed
+    interval / box: the property fails, whatever else the trace looks like.  `what` names the array
+    (`time-store`, `inside-batch`, …) in which the implementation returned it. -/
+def c08NotFinite (what : String) : Option String := some (what ++ "-point-not-finite")
+
 /-! ### whole traces -/
 
 /-- C08 on an ODE generator: the time store after construction and every temporal batch. -/
